@@ -5,3 +5,4 @@ pub mod pool;
 pub mod report;
 pub mod checks;
 pub mod refnum;
+pub mod cli;
